@@ -1,15 +1,19 @@
 #!/usr/bin/env python3
-"""dev helper: generate a unit file and run verus on it, print human-readable errors"""
-import sys, importlib, os, subprocess, json
+"""dev helper: tools/gen.py <unit> [-v]  -- generate, run Verus, print compact classified errors"""
+import sys, os
 sys.path.insert(0, os.path.dirname(os.path.dirname(os.path.abspath(__file__))))
-from vlib import verus
+sys.dont_write_bytecode = True
+from vlib import driver
 name = sys.argv[1]
-mod = importlib.import_module('units.' + name)
-U = mod.build()
-text, lm = U.generate()
 d = '/tmp/vgen'; os.makedirs(d, exist_ok=True)
-p = os.path.join(d, name + '.rs'); open(p, 'w').write(text)
-print('generated', p, len(text.split('\n')), 'lines')
-if len(sys.argv) > 2 and sys.argv[2] == 'gen': sys.exit(0)
-r = subprocess.run(['verus', name + '.rs', '--multiple-errors', '50'] + sys.argv[2:], cwd=d, text=True, capture_output=True)
-print(r.stdout[-3000:]); print(r.stderr[-12000:])
+ur = driver.run_unit(name, d)
+for r in ur.undecided:
+    print('UNDECIDED:', r[:6000])
+if ur.result:
+    ok = sum(1 for f in ur.result.functions if f['success']); n = len(ur.result.functions)
+    print('functions %d/%d ok   wall %.1fs' % (ok, n, ur.result.wall_s))
+for e in ur.errors:
+    print('- %-28s %-18s L%-5d %s %s' % (e['function'], e['kind'], e['gen_line'], ','.join(e['tags']), e['label'] or ''))
+    print('      site  : %s' % e['site_text'][:160])
+    if e['clause']: print('      clause: %s' % e['clause'][:200])
+    if '-v' in sys.argv: print(e['rendered'])
